@@ -510,6 +510,38 @@ func init() {
 			}
 			return VBool{ex.nameT(eq)}
 		}
+		// strings.Join: exact on constant parts; otherwise a function of the parts that is treated as injective (joins of
+		// different lists that happen to spell the same text, such as ["a,b"] and ["a","b"], are outside the model)
+		m["strings.Join"] = func(ex *Exec, fr *frame, cc *ssa.CallCommon, a []Value) Value {
+			sl, ok := a[0].(VSlice)
+			if !ok {
+				panic(unsupported{"strings.Join of a non-slice"})
+			}
+			parts := sliceElems(sl)
+			sep := cstr(a[1])
+			allc := true
+			var conc []string
+			for _, p := range parts {
+				ps, ok := p.(VStr)
+				if !ok || ps.Conc == nil {
+					allc = false
+					break
+				}
+				conc = append(conc, *ps.Conc)
+			}
+			if allc {
+				return concStr(strings.Join(conc, sep))
+			}
+			flat := []Term{IntC(int64(len(parts)))}
+			for _, p := range parts {
+				ps, ok := p.(VStr)
+				if !ok || !ex.flattenStr(ps, &flat) {
+					panic(unsupported{"strings.Join of these parts"})
+				}
+			}
+			t := ex.injectiveAtom("join:"+sep, flat)
+			return VStr{Atom: &t}
+		}
 		m["strings.TrimPrefix"] = func(ex *Exec, fr *frame, cc *ssa.CallCommon, a []Value) Value {
 			s, p := a[0].(VStr), cstr(a[1])
 			if s.Conc != nil {
